@@ -18,7 +18,7 @@ Union/Intersect/Sub/Xor is executed by the harness (go/cmd/c05), which appends t
                 (`EO.validateGeneral`); another share is disjoint / nested with overlapping boxes in ways only the exact
                 general judgement `EO.noContact` / `EO.containedIn` recognises (interleaved combs, a triangle in the
                 notch of an L, a polygon in the hole of a ring, a polygon inside another one for Sub): the result must be
-                empty too, but the soundness of that judgement is stated, not proved; three quarters of the remaining
+                empty too (C05.noContact_disjoint / containedIn_subset: proved, a Jordan-type theorem); three quarters of the remaining
                 pairs have crossing boundaries; a call with no judged point is `unjudged`
                 and is not counted as validated;
   biglattice /  LARGE inputs (a few dozen calls per quick run): 66-110 lattice rows / columns listed in descending,
@@ -30,6 +30,29 @@ Union/Intersect/Sub/Xor is executed by the harness (go/cmd/c05), which appends t
                 calls (reused as returned), the same entry on both sides, Polygon.Clone() of an entry, empty results fed
                 back in; after every call the whole pool is compared with a snapshot and the result is overwritten to
                 detect shared memory; every step is validated by `validateLattice` on the exact returned values;
+  prune         the FIRST STAGE of the clipper alone: `Polygon.identifyNonContributingContours` (bounding-box pruning) is
+                called through the overlay go/overlay/c05_prune.go on operands with 1-7 scattered / abutting / overlapping
+                contours (lattice integers, quarter steps, magnitudes up to 2^52 where the +1 of the box is absorbed); the
+                flags it returns are checked by `EO.pruneOK` (C05.prune_sound: dropping the flagged contours changes the
+                combined region at no point) and, where the float arithmetic of the box is exact, compared with the Lean
+                transcription `EO.nonContributing` (C05.nonContributing_sound) - agreement is a statistic, not a demand;
+                `unobserved` (no judgement, no alarm) when the overlay does not compile against the working tree;
+  emit / sbt    two more stages through the overlay go/overlay/c05_emit.go: `polygonNode.generate` on synthetic output
+                chains (rectilinear lattice contours with repeated vertices, chains of 0-2 vertices, inactive chains,
+                chains that cancel each other): the emitted polygon must contain exactly the points of the active chains
+                (`EO.sameRegionLattice`, exhaustive cells; C05.emit_sound, C05.generate_region); `scanBeamTree.add` +
+                `buildScanBeamTable` on ordinate lists (duplicates, +-0, neighbours one ulp or < 1e-5 apart, ascending /
+                descending runs, up to 100 entries): the table must equal `EO.scanBeamTable` (C05.scanBeamTable_spec);
+  lmt           the local minima table `buildLocalMinimaTable` builds for the operand A (contour optimisation, forward and
+                reverse passes, bound lists; overlay) on lattice, general-position and scattered-contour lines: validated
+                by `EO.lmtOK` - the edges of all bounds are exactly the non-horizontal edges of A, lower end first, as a
+                multiset (C05.lmt_sound: the sweep is handed the whole boundary, nothing else), the minima are strictly
+                ascending and the scan-beam table is the ascending list of the end points' ordinates;
+  contains      the library's own point tests: `Polygon.ContainsEvenOdd` and `Polygon.Contains` (hence `Contour.Contains`)
+                of both operands of lattice and general-position lines, at the N^2 cell centres resp. at the sample points
+                that keep the margin, against the transcription `EO.containsEvenOdd` / `EO.containsAny`, which is proved to
+                be the even-odd rule of the specification (resp. the union of the contours) off the edges - this also
+                cross-validates the Lean oracle against an independent implementation;
   corpus        corpus/C05/*.ops (fixed enumerated degenerate inputs and boundary cases), both modes;
                 corpus/C05/degenerate.known.ops are the KNOWN FINDINGS on degenerate lattice inputs (panics, wrong
                 regions): each must be matched by an entry of known_findings.json (KNOWN-FINDING, exit 0), every other
@@ -49,13 +72,22 @@ from concurrent.futures import ThreadPoolExecutor
 
 DRIVER = "drv_c05"
 N_CALLS = {
-    "lattice": {"quick": 60000, "thorough": 2400000},
-    "general": {"quick": 9000, "thorough": 240000},
+    "lattice": {"quick": 60000, "thorough": 1500000},
+    "general": {"quick": 9000, "thorough": 180000},
     # LARGE inputs (deep scan-beam tree / long active edge table); each call costs 0.1-1.5 s of oracle time
-    "biglattice": {"quick": 64, "thorough": 3200},
-    "biggeneral": {"quick": 48, "thorough": 4000},
+    "biglattice": {"quick": 64, "thorough": 2000},
+    "biggeneral": {"quick": 48, "thorough": 2500},
     # chains of 3-5 calls that reuse results (and clones, the same entry twice, empty results) as operands; lattice
-    "chain": {"quick": 8000, "thorough": 400000},
+    "chain": {"quick": 8000, "thorough": 240000},
+    # the bounding-box pruning step alone (identifyNonContributingContours through the overlay): flags, not results
+    "prune": {"quick": 4000, "thorough": 80000},
+    # the emission step (polygonNode.generate) and the scan-beam table alone, through the overlay
+    "emit": {"quick": 2400, "thorough": 48000},
+    "sbt": {"quick": 2400, "thorough": 48000},
+    # the library's own point tests (ContainsEvenOdd / Contains) against their transcription, ~280 point tests per line
+    "contains": {"quick": 1600, "thorough": 32000},
+    # the local minima table of the operand A (buildLocalMinimaTable through the overlay), validated by EO.lmtOK
+    "lmt": {"quick": 3000, "thorough": 60000},
 }
 
 
@@ -95,6 +127,31 @@ def _summarise(area, tag, triples):
             continue
         if verdict is not None and verdict.startswith("unjudged"):
             S["unjudged"] = S.get("unjudged", 0) + 1  # executed, but nothing was judged: never counted as validated
+            continue
+        if area == "prune" and verdict is not None and verdict.startswith("valid "):
+            # flags of the pruning step accepted by EO.pruneOK: counted on their own, never as cell / point judgements
+            S["prune_calls"] = S.get("prune_calls", 0) + 1
+            S["prune_flagged"] = S.get("prune_flagged", 0) + int(verdict.split()[1])
+            S["prune_contours"] = S.get("prune_contours", 0) + int(verdict.split()[3])
+            rk = "prune_" + verdict.split()[4].replace("-", "_") if len(verdict.split()) > 4 else "prune_rule_not_compared"
+            S[rk] = S.get(rk, 0) + 1
+            if int(verdict.split()[1]) > 0:
+                S["prune_calls_with_flag"] = S.get("prune_calls_with_flag", 0) + 1
+                S["distinct"].add(int.from_bytes(hashlib.md5((area + "|" + line).encode()).digest()[:8], "big"))
+            if len(S["samples"]) < 1 and k % 499 == 7:
+                S["samples"].append({"area": area, "call": line[:400], "result": out[:300], "oracle": verdict})
+            continue
+        if area in ("emit", "sbt", "contains", "lmt") and verdict is not None and verdict.startswith("valid "):
+            # a stage of the clipper judged on its own (overlay): counted on its own
+            S[area + "_calls"] = S.get(area + "_calls", 0) + 1
+            S[area + "_units"] = S.get(area + "_units", 0) + int(verdict.split()[1])
+            for tag in ("rule-agrees", "rule-differs"):
+                if tag in verdict:
+                    kk = area + "_" + tag.replace("-", "_")
+                    S[kk] = S.get(kk, 0) + 1
+            S["distinct"].add(int.from_bytes(hashlib.md5((area + "|" + line).encode()).digest()[:8], "big"))
+            if len(S["samples"]) < 1 and k % 499 == 7:
+                S["samples"].append({"area": area, "call": line[:400], "result": out[:300], "oracle": verdict})
             continue
         if verdict is not None and verdict.startswith("valid "):
             j = int(verdict.split()[1])
@@ -162,8 +219,18 @@ def _report(ctx, S, counters):
         counters["reported"] += 1
         rep = {"property": "C05", "kind": "translation-validation", "area": area, "stream": tag, "driver": DRIVER,
                "harness": "harness", "ops": [line], "impl_outputs": [out], "model_outputs": [verdict],
-               "contradicts": "C05.validateLattice_sound / C05.validatePoints_sound: the oracle rejects the result "
-                              "of this call (or the call panicked / modified an operand)",
+               "contradicts": ("C05.prune_sound: the pruning step flags a contour that EO.pruneOK does not accept (dropping "
+                               "it may change the combined region)" if area == "prune" else
+                               "C05.emit_sound: the polygon generate returned does not contain exactly the points of the "
+                               "chains" if area == "emit" else
+                               "C05.scanBeamTable_spec: the scan-beam table is not the ascending list of the distinct "
+                               "ordinates added" if area == "sbt" else
+                               "C05.lmt_sound: the local minima table does not hold exactly the non-horizontal edges of the "
+                               "operand" if area == "lmt" else
+                               "C05.containsEvenOdd_is_inside / containsAny_is_union: the library's point test answers "
+                               "differently from its transcription at a point off the edges" if area == "contains" else
+                               "C05.validateLattice_sound / C05.validatePoints_sound: the oracle rejects the result "
+                               "of this call (or the call panicked / modified an operand)"),
                "concrete_failing_input": True}
         path = ctx._write_replay(rep)
         ctx.violations.append({"kind": "translation-validation", "replay": path, "concrete": True,
@@ -195,6 +262,16 @@ def run(ctx):
         "the clipper itself is not modelled: each call is validated by the Lean even-odd oracle drv_c05 "
         "(EO.validateLattice / EO.validatePoints, exact dyadic arithmetic); the theorems of Props/C05.lean are about "
         "that oracle",
+        "modelled part of the clipper: the trivial-result shortcut of Polygon.construct (EO.shortCircuit) and the "
+        "bounding-box pruning Polygon.identifyNonContributingContours with Contour.Bounds / geom.Rect.Intersects in "
+        "exact arithmetic (EO.nonContributing; C05.nonContributing_sound); the real function's flags are validated "
+        "by EO.pruneOK (area prune, overlay go/overlay/c05_prune.go)",
+        "also modelled: polygonNode.generate (EO.generate, C05.generate_region; area emit) and scanBeamTree.add / "
+        "buildScanBeamTable (EO.scanBeamTable, C05.scanBeamTable_spec; area sbt), both through go/overlay/c05_emit.go",
+        "validated, not transcribed: buildLocalMinimaTable (EO.lmtOK on the table the real code built, C05.lmt_sound; "
+        "area lmt, overlay)",
+        "also modelled: Contour.Contains, Polygon.ContainsEvenOdd, Polygon.Contains in exact arithmetic "
+        "(EO.containsC / containsEvenOdd / containsAny; C05.containsEvenOdd_is_inside, containsAny_is_union; area contains)",
         "harness go/cmd/c05: operand parsing (exactness of every number is checked), bit-exact printing of the "
         "result, operand deep comparison, Polygon.Empty cross-check",
     ]
@@ -202,31 +279,37 @@ def run(ctx):
         "nothing universal is claimed about the clipper: the claim is per validated call",
         "general-position calls are judged on sample points only (100 candidates per call plus up to ~60 taken from "
         "the result, margin 1/64 - for a third of the float64 calls 1/1024 - from every "
-        "edge of A, B and R); lattice calls are decided at every point of every open unit cell, points on lattice "
-        "lines are not judged",
+        "edge of A, B and R); lattice calls are decided at every point of the plane "
+        "(C05.validateLattice_sound_everywhere; a point on a lattice line is classified by the half-open crossing rule "
+        "like the cell to its upper right)",
+        "the transcription EO.nonContributing uses exact arithmetic: the rounding guard of poly.extent is not modelled; "
+        "what the real float code flags is checked directly (EO.pruneOK), at all magnitudes",
     ]
     t0 = time.time()
     ctx.lean(props=["Props.C05"], drivers=[DRIVER])
     # the Lean phase waits on the lock shared by ALL checks (.work/lean.lock): its wall time is not this check's cost
     ctx.extra["wall_lean_phase_incl_shared_lock_wait_s"] = round(time.time() - t0, 1)
     t1 = time.time()
-    if not ctx.harness("./cmd/c05"):
+    # white-box view of the pruning step (area `prune`); core falls back to a black-box build (tag nooverlay) when the
+    # overlay does not compile against the working tree, and the pruning step is then simply not observed
+    if not ctx.harness("./cmd/c05", overlay={"xmath/geom/poly/verif_c05_prune.go": "c05_prune.go",
+                                                "xmath/geom/poly/verif_c05_emit.go": "c05_emit.go"}):
         return
     if ctx.replay:
         return _replay(ctx)
 
     if ctx.tier == "quick":
-        shards = {"lattice": 8, "general": 24, "biglattice": 8, "biggeneral": 8, "chain": 4}
+        shards = {"lattice": 8, "general": 24, "biglattice": 8, "biggeneral": 8, "chain": 4, "prune": 2, "emit": 1, "sbt": 1, "contains": 4, "lmt": 2}
     else:
-        shards = {"lattice": 32, "general": 96, "biglattice": 32, "biggeneral": 32, "chain": 32}
+        shards = {"lattice": 32, "general": 96, "biglattice": 32, "biggeneral": 32, "chain": 32, "prune": 16, "emit": 16, "sbt": 8, "contains": 32, "lmt": 16}
     jobs = []
     chunk = {"biglattice": 1, "biggeneral": 2}  # the large corpus calls cost about a second of oracle time each
-    for area in ("biglattice", "biggeneral", "lattice", "general", "chain", "degenerate"):
+    for area in ("biglattice", "biggeneral", "lattice", "general", "chain", "degenerate", "prune", "emit", "sbt", "contains", "lmt"):
         c = ctx.corpus(area)
         n = chunk.get(area, 100)  # chunks: the degenerate corpus lines carry many sample points
         for k in range(0, len(c), n):
             jobs.append((area, "corpus%d" % (k // n), c[k:k + n], None, 0))
-    for area in ("biglattice", "biggeneral", "general", "lattice", "chain"):  # long jobs first
+    for area in ("biglattice", "biggeneral", "general", "lattice", "chain", "contains", "prune", "lmt", "emit", "sbt"):  # long first
         per = max(1, N_CALLS[area][ctx.tier] // shards[area])
         for i in range(shards[area]):
             jobs.append((area, "seed%d" % (ctx.seed * 1000003 + i), None, ctx.seed * 1000003 + i, per))
@@ -298,7 +381,10 @@ def run(ctx):
         if S["area"].startswith("big"):
             counters["programs_large"] = counters.get("programs_large", 0) + S["programs"]
         counters["empty_results"] += S["empty_results"]
-        for k in ("unjudged", "empty_certified", "empty_judged", "empty_with_contours"):
+        for k in ("unjudged", "empty_certified", "empty_judged", "empty_with_contours", "prune_calls", "prune_flagged",
+                  "prune_contours", "prune_calls_with_flag", "prune_rule_agrees", "prune_rule_differs",
+                  "prune_rule_not_compared", "emit_calls", "emit_units", "emit_rule_agrees", "emit_rule_differs",
+                  "sbt_calls", "sbt_units", "contains_calls", "contains_units", "lmt_calls", "lmt_units"):
             counters[k] = counters.get(k, 0) + S.get(k, 0)
         _report(ctx, S, counters)
     ctx.extra["wall_harness_and_streams_s"] = round(time.time() - t1, 1)
@@ -312,6 +398,39 @@ def run(ctx):
     ctx.extra["sampled_calls_with_certified_empty_region"] = counters.get("empty_certified", 0)
     ctx.extra["sampled_calls_with_judged_empty_region_noContact_containedIn"] = counters.get("empty_judged", 0)
     ctx.extra["certified_empty_results_that_had_contours"] = counters.get("empty_with_contours", 0)
+    ctx.extra["pruning_step"] = {
+        "calls_of_identifyNonContributingContours_accepted_by_pruneOK": counters.get("prune_calls", 0),
+        "of_which_flag_at_least_one_contour": counters.get("prune_calls_with_flag", 0),
+        "contours_flagged": counters.get("prune_flagged", 0), "contours_total": counters.get("prune_contours", 0),
+        "flags_equal_to_the_Lean_transcription_EO_nonContributing": counters.get("prune_rule_agrees", 0),
+        "flags_different_from_the_transcription(not an alarm: a more conservative box test is as correct)":
+            counters.get("prune_rule_differs", 0),
+        "not_compared_with_the_transcription(float arithmetic of the box not exact at that magnitude)":
+            counters.get("prune_rule_not_compared", 0),
+        "note": "area `prune`: the flags the real pruning step returned (overlay go/overlay/c05_prune.go) checked by "
+                "EO.pruneOK (C05.prune_sound); not part of programs / disagreements_checked; `unobserved` when the "
+                "overlay does not compile against the working tree: " + str(ctx.extra.get("overlay_fallback", "no fallback"))}
+    ctx.extra["emission_step"] = {
+        "calls_of_polygonNode_generate_with_the_region_of_the_chains(EO.sameRegionLattice)": counters.get("emit_calls", 0),
+        "cells_checked": counters.get("emit_units", 0),
+        "results_equal_to_the_Lean_transcription_EO_generate": counters.get("emit_rule_agrees", 0),
+        "results_different_from_the_transcription(not an alarm: same region)": counters.get("emit_rule_differs", 0),
+        "note": "area `emit` (overlay go/overlay/c05_emit.go): C05.emit_sound / C05.generate_region"}
+    ctx.extra["scan_beam_table"] = {
+        "tables_equal_to_EO_scanBeamTable": counters.get("sbt_calls", 0), "beams": counters.get("sbt_units", 0),
+        "note": "area `sbt` (overlay): scanBeamTree.add + buildScanBeamTable against the Lean transcription "
+                "(C05.scanBeamTable_spec: strictly ascending, exactly the ordinates added)"}
+    ctx.extra["local_minima_table"] = {
+        "tables_of_buildLocalMinimaTable_accepted_by_EO_lmtOK": counters.get("lmt_calls", 0),
+        "edges_in_bounds": counters.get("lmt_units", 0),
+        "note": "area `lmt` (overlay): the edges of all bounds are exactly the non-horizontal edges of the operand, lower "
+                "end first, minima strictly ascending, scan-beam table = ordinates of the end points (C05.lmt_sound)"}
+    ctx.extra["library_point_tests"] = {
+        "lines": counters.get("contains_calls", 0),
+        "ContainsEvenOdd_and_Contains_answers_equal_to_the_transcription": counters.get("contains_units", 0),
+        "note": "area `contains`: Polygon.ContainsEvenOdd / Polygon.Contains of both operands at the N^2 cell centres "
+                "(lattice lines) or at the sample points that keep the margin (general-position lines), against "
+                "EO.containsEvenOdd / EO.containsAny (C05.containsEvenOdd_is_inside: = the even-odd rule off the edges)"}
     ctx.extra["violations_not_listed"] = counters["suppressed"]
     ctx.extra["known_finding_inputs_hit"] = counters.get("known", 0)
     ctx.extra["watchdog_timeouts_not_confirmed"] = counters.get("spurious_timeouts", 0)
